@@ -470,6 +470,10 @@ class Generator(object):
         if not checker.is_bound():
             raise self.error('SEQUENCE OF has no maximum length.')
 
+        if checker.maximum < 1:
+            # A zero-size array is not valid C99.
+            raise self.error('SEQUENCE OF maximum length is zero.')
+
         lines = self.format_type(type_.element_type, checker.element_type)
 
         if lines:
